@@ -91,6 +91,17 @@ func (c *oblCtx) nullableSourceD(e ast.Expr, depth int) (string, bool) {
 			if sel.Obj().Name() == "Value" && strings.HasSuffix(sel.Recv().String(), "go/types.TypeAndValue") {
 				return "TypeAndValue.Value is nil for a non-constant expression", true
 			}
+			// optional children of go/ast nodes ("or nil" in the go/ast documentation): comment groups and field lists
+			if v, ok := sel.Obj().(*types.Var); ok && v.Pkg() != nil && v.Pkg().Path() == "go/ast" {
+				switch v.Type().String() {
+				case "*go/ast.CommentGroup":
+					return "go/ast: " + v.Name() + " is nil when the declaration carries no such comment", true
+				case "*go/ast.FieldList":
+					if v.Name() == "Recv" || v.Name() == "TypeParams" || v.Name() == "Results" {
+						return "go/ast: " + v.Name() + " is nil when absent from the declaration", true
+					}
+				}
+			}
 		}
 	}
 	return "", false
@@ -204,6 +215,9 @@ func (c *oblCtx) nullableVar(id *ast.Ident) (string, bool) {
 			return "declared without a value and only conditionally assigned", true
 		}
 		if why, ok := c.nullableSource(d); ok {
+			if c.isNonNil(es(d)) {
+				continue // the defining expression itself is known non-nil here (tested before the copy)
+			}
 			return why, true
 		}
 	}
@@ -224,7 +238,9 @@ func (c *oblCtx) checkNilSel(sel *ast.SelectorExpr) {
 	if !isNilable(rt) {
 		return
 	}
-	_ = s
+	if fn, ok := s.Obj().(*types.Func); ok && fn.FullName() == "(*go/ast.CommentGroup).Text" {
+		return // documented nil-safe
+	}
 	x := ast.Unparen(sel.X)
 	var why string
 	if w, ok := c.nullableSource(x); ok {
